@@ -488,7 +488,7 @@ func c15exec(c *h.Ctx, cs *h.Case) {
 		cs.Fail("harness-no-server", "could not start a server with a reachable websocket port")
 		return
 	}
-	if cs.Class == "corpus:blocked-emit" {
+	if strings.HasPrefix(cs.Class, "corpus:blocked-emit") {
 		c15wait = 1200 * time.Millisecond
 	}
 	for _, op := range cs.Ops {
@@ -545,7 +545,7 @@ func c15oracle(cs *h.Case) {
 			continue
 		}
 		c := get(tk[2])
-		blockedOK := cs.Class == "corpus:blocked-emit" && tk[1] == "emit" && c.held
+		blockedOK := strings.HasPrefix(cs.Class, "corpus:blocked-emit") && tk[1] == "emit" && c.held
 		switch tk[1] {
 		case "open", "csend":
 			if tk[3] == "garbage" || tk[3] == "failing" {
@@ -732,6 +732,27 @@ func (g *c15g) reuse(c string, n, burst int) []string {
 	return append(ops, "c15 svcclose "+c+" 0", "c15 cread "+c, "c15 wstop "+c+" 0")
 }
 
+// a service with one long-lived channel per topic: the client asks topic 0,
+// topic 1, then topic 0 again (the handler returns channel 0 again); bursts on
+// both channels must arrive in emission order per channel
+func (g *c15g) revisit(c string, rounds, burst int) []string {
+	r := g.c.Rng
+	ops := []string{"c15 open " + c + " fresh", "c15 wstart " + c + " 0", "c15 csend " + c + " fresh", "c15 wstart " + c + " 1"}
+	ops = append(ops, g.values(c, 1, 1, 1)...)
+	calls := 2
+	for i := 0; i < rounds; i++ {
+		k := i % 2 // 0, 1, 0, 1, ...: every request revisits the channel before the previous one
+		ops = append(ops, fmt.Sprintf("c15 csend %s reuse%d", c, k), fmt.Sprintf("c15 wstart %s %d", c, calls))
+		calls++
+		ops = append(ops, g.values(c, r.Intn(2), 1+r.Intn(2*burst), burst)...)
+		ops = append(ops, g.values(c, 0, burst, burst)...)
+	}
+	first := r.Intn(2)
+	ops = append(ops, fmt.Sprintf("c15 svcclose %s %d", c, first))
+	ops = append(ops, g.values(c, 1-first, r.Intn(4), burst)...)
+	return append(ops, fmt.Sprintf("c15 svcclose %s %d", c, 1-first), "c15 cread "+c, "c15 wstop "+c+" 0", "c15 wstop "+c+" 1")
+}
+
 // the reader holds a further client message while the stream ends (race (c))
 func (g *c15g) readerRace(c string, p int, msg string) []string {
 	ops := []string{"c15 open " + c + " fresh", "c15 wstart " + c + " 0"}
@@ -841,6 +862,18 @@ func c15genCases(c *h.Ctx, yield func(*h.Case)) {
 		emit("corpus:blocked-emit", ops)
 	}
 
+	{
+		// channel 0, channel 1, channel 0 again (seed C15r3-B): still one forwarder on channel 0,
+		// so its second value cannot be taken while the first is held
+		c15 := "s0"
+		ops := []string{"c15 open " + c15 + " fresh", "c15 wstart " + c15 + " 0", "c15 csend " + c15 + " fresh", "c15 wstart " + c15 + " 1",
+			"c15 emit " + c15 + " 1 9", "c15 cread " + c15, "c15 csend " + c15 + " reuse0", "c15 wstart " + c15 + " 2",
+			"c15 hold " + c15 + " forwarder-send", "c15 emit " + c15 + " 0 1", "c15 wheld " + c15 + " forwarder-send",
+			"c15 emit " + c15 + " 0 2", "c15 release " + c15 + " forwarder-send", "c15 cread " + c15,
+			"c15 emit " + c15 + " 0 3", "c15 cread " + c15, "c15 svcclose " + c15 + " 0", "c15 svcclose " + c15 + " 1", "c15 cread " + c15}
+		emit("corpus:blocked-emit-revisit", ops)
+	}
+	emit("corpus:revisit", g.revisit("s0", 3, 4))
 	emit("corpus:inputs-overflow", g.inputsOverflow("s0", 1, 14, "close"))
 	emit("corpus:flood-after-leave", g.floodAfterLeave("s0", 1, 130, "drop"))
 
@@ -861,6 +894,7 @@ func c15genCases(c *h.Ctx, yield func(*h.Case)) {
 	for it := 0; it < c.Pick(150, 1500); it++ {
 		emit("two-streams", g.twoStreams("s0", r.Intn(5), r.Intn(5), r.Intn(2), r.Intn(4)))
 		emit("reuse", g.reuse("s0", r.Intn(10), 1+r.Intn(4)))
+		emit("revisit", g.revisit("s0", 1+r.Intn(4), 1+r.Intn(5)))
 		emit("reader-race", g.readerRace("s0", r.Intn(4), []string{"fresh", "garbage", "failing", "reuse0"}[r.Intn(4)]))
 		emit("adapter-race", g.adapterRace("s0", r.Intn(4)))
 		emit("forwarder-race", g.forwarderRace("s0", r.Intn(4), how()))
